@@ -24,7 +24,7 @@ CLAIMS['C15'] = ('other', 'proved (abstract execution of the real AST where ever
                  'bounded: termination, clean rejection and well-formed results on token-level corruptions of small files', _MIX + '; ' + _BN, _MT, 'DESIGN.md 0.1, 6/C15')
 CLAIMS['C16'] = ('other', 'decided on the real AST (syntactic effect analysis, S obligations): every store, delete and mutating call in the five composer modules targets the composer, a container it created, or a documented EDIF effect; '
                  'bounded: compose twice, compare netlist snapshots and output bytes', _MIX + '; ' + _BN, _MT, 'DESIGN.md 0.1, 6/C16')
-CLAIMS['C17'] = ('other', 'proved (string VCs over the real AST of composers/edif/edifify.py): _length_fix/_characters_good/_characters_fix/_conflicts_fix/make_valid return a legal EDIF identifier of bounded length for every printable-ASCII name, distinct from siblings relative to the uninterpreted sibling scan _conflicts_good; '
+CLAIMS['C17'] = ('other', 'proved (string VCs over the real AST of composers/edif/edifify.py): _length_fix/_characters_good/_characters_fix/_conflicts_fix/make_valid return a legal EDIF identifier of bounded length for every printable-ASCII name, and _conflicts_good(obj, lower(result), objects) holds; _conflicts_good itself is proved (IR heap model) to be True exactly when no other element of `objects` carries that name or EDIF.identifier ignoring case; '
                  'bounded: composed EDIF files re-read and compared, rename table checked against the oracle', _MIX + '; ' + _BN, _MT, 'DESIGN.md 0.1, 6/C17')
 CLAIMS['C20'] = ('other', 'proved: soundness of rejection for the six element-level Comparer functions (normal return implies the examined attributes are equal), for all heaps satisfying Inv; '
                  'bounded: clones accepted, single structural edits rejected, over seeded netlists', _MIX + '; ' + _BN, _MT, 'DESIGN.md 0.1, 6/C20')
